@@ -145,30 +145,50 @@ theorem owns_not_disabled (d : Disabled) (plugin : Str) (methods : List Str) (c 
   simp only [Bool.and_eq_true, Bool.not_eq_true'] at h
   exact h.1.1
 
-/-- **What a history of `disable` / `enable` leaves disabled** (the real semantics of the
-`DisabledCommands` store, starting empty; `h` lists the operations most recent first, on canonical
-names): `isDisabled` for plugin `p` and command `c` is decided by
-* the last `disable c` / `enable c` (no plugin given) if no operation about exactly `(p, c)` follows
-  it — `enable c` erases every per-plugin entry of `c` as well;
-* otherwise the last operation about `(p, c)`: `disable p c` disables; `enable p c` enables unless
-  `c` is at that moment disabled everywhere, in which case it changes nothing.
-Operations about other commands or other plugins never matter. -/
+/-- **What a history of `disable` / `enable` leaves disabled** (the semantics of the
+`DisabledCommands` store since fix 8c1c1e9, starting empty; `h` lists the operations most recent
+first, on canonical names): a command `c` is disabled for plugin `p` exactly when the last
+`disable c` / `enable c` (no plugin given) was a disable, or the last `disable p c` / `enable p c`
+was a disable.  The two are independent: disabling or enabling a command everywhere never touches
+what was said about a single plugin, and operations about other commands or plugins never matter. -/
 theorem disabled_history (h : List SOp) (command plugin : Str) :
-    isDisabled (runK h) command plugin = says (canonicalName plugin) (canonicalName command) h := by
-  rw [isDisabled_eq, disabledK_run]
+    isDisabled (runK h) command plugin =
+      (saysAll (canonicalName command) h || saysFor (canonicalName plugin) (canonicalName command) h) := by
+  rw [isDisabled_eq, disabledK, evK_run, forK_run]
+
+/-- **Disabled and not enabled again stays disabled**: after `disable p c`, whatever follows that is
+not an `enable p c`, the command stays disabled for `p` — in particular through `disable c` /
+`enable c` (before fix 8c1c1e9 `disable p c; disable c; enable c` left `p.c` running). -/
+theorem disabled_until_enabled (before after : List SOp) (p c : Str)
+    (hno : ∀ op ∈ after, op ≠ .enableFor p c) :
+    disabledK (runK (after ++ .disableFor p c :: before)) c p = true := by
+  have : saysFor p c (after ++ .disableFor p c :: before) = true := by
+    induction after with
+    | nil => simp [saysFor]
+    | cons op rest ih =>
+      have ih' := ih (fun o ho => hno o (by simp [ho]))
+      cases op with
+      | enableFor p' c' =>
+        have hne : ¬ (c' = c ∧ p' = p) := by
+          intro ⟨h1, h2⟩; exact hno (.enableFor p' c') (by simp) (by rw [h1, h2])
+        simp [saysFor, hne, ih']
+      | disableFor p' c' => simp only [List.cons_append, saysFor, ih']; split <;> rfl
+      | disableAll c' => simpa [saysFor] using ih'
+      | enableAll c' => simpa [saysFor] using ih'
+  rw [disabledK, forK_run, this, Bool.or_true]
 
 /-- one operation, from any store: `isDisabled` afterwards in terms of before -/
-theorem disabled_step (d : Disabled) (op : SOp) (command plugin : Str) :
-    isDisabled (stepK d op) command plugin =
-      match op with
-      | .disableAll c' => if canonicalName command = c' then true else isDisabled d command plugin
-      | .enableAll c' => if canonicalName command = c' then false else isDisabled d command plugin
-      | .disableFor p' c' =>
-        if canonicalName command = c' ∧ canonicalName plugin = p' then true else isDisabled d command plugin
-      | .enableFor p' c' =>
-        if canonicalName command = c' ∧ canonicalName plugin = p' then isGlobalK d (canonicalName command)
-        else isDisabled d command plugin := by
-  rw [isDisabled_eq, disabledK_step, ← isDisabled_eq]
+theorem disabled_step (d : Disabled) (op : SOp) (k p : Str) :
+    disabledK (stepK d op) k p =
+      ((match op with
+        | .disableAll c => if k = c then true else evK d k
+        | .enableAll c => if k = c then false else evK d k
+        | _ => evK d k) ||
+       (match op with
+        | .disableFor p' c => if k = c ∧ p = p' then true else forK d k p
+        | .enableFor p' c => if k = c ∧ p = p' then false else forK d k p
+        | _ => forK d k p)) := by
+  rw [disabledK, evK_step, forK_step]
   cases op <;> rfl
 
 /-- **An `enable` that is answered with an error changes nothing** (since fix 6f88b83; before it,
@@ -177,26 +197,60 @@ deleted the whole store entry, per-plugin disables included). -/
 theorem enable_error_changes_nothing (s : OwnerSt) (pl : Option Str) (c : Str)
     (h : (ownerEnable s pl c).2 = false) : (ownerEnable s pl c).1 = s := by
   unfold ownerEnable at h ⊢
-  cases pl <;> simp only at h ⊢ <;> split <;> simp_all
+  simp only at h ⊢
+  split
+  · rename_i hc; rw [if_pos hc] at h; cases h
+  · rfl
 
-/-- a successful `enable` is one step of the store (`remove_eq_step`) and takes the name out of the registry set -/
-theorem enable_ok_step (s : OwnerSt) (pl : Option Str) (c : Str) (h : (ownerEnable s pl c).2 = true) :
-    (ownerEnable s pl c).1.store = stepK s.store (match pl with
-      | none => .enableAll (canonicalName c)
-      | some p => .enableFor (canonicalName p) (canonicalName c)) := by
-  have hr := remove_eq_step s.store c pl
-  unfold ownerEnable at h ⊢
-  cases pl <;> simp only at h hr ⊢ <;> split <;> simp_all
+/-- **The live store and the registry value always say the same** — so what is disabled now is what
+is disabled after the next start: the coherence `Coh` holds for the store a (re)started bot builds
+(`fromConf`) and is preserved by every `Owner.disable` and `Owner.enable`, successful or not. -/
+theorem store_registry_coherent :
+    (∀ conf, CanonConf conf → Coh ⟨fromConf conf, conf⟩) ∧
+    (∀ s plugin c, Coh s → Coh (ownerDisable s plugin c).1) ∧
+    (∀ s pl c, Coh s → Coh (ownerEnable s pl c).1) := by
+  refine ⟨coh_fromConf, ?_, ?_⟩
+  · intro s plugin c h
+    unfold ownerDisable
+    split
+    · exact h
+    · cases plugin with
+      | none => simpa using coh_step_disable s none c h
+      | some nm =>
+        obtain ⟨name, methods⟩ := nm
+        simp only
+        split
+        · simpa using coh_step_disable s (some name) c h
+        · exact h
+  · intro s pl c h
+    unfold ownerEnable
+    simp only
+    split
+    · exact coh_step_enable s pl c h
+    · exact h
 
-/-- the former witness: after `disable VtOrderB igno`, `enable igno` reports an error and
-`VtOrderB.igno` stays disabled -/
+/-- … hence a restart changes nothing about what is disabled -/
+theorem restart_same (s : OwnerSt) (h : Coh s) (hc : CanonConf s.conf) (k p : Str) :
+    disabledK (fromConf s.conf) k p = disabledK s.store k p := by
+  have h' := coh_fromConf s.conf hc
+  simp only [disabledK, h.1 k, h.2 k p]
+  rw [show evK (fromConf s.conf) k = s.conf.contains (none, k) from h'.1 k,
+    show forK (fromConf s.conf) k p = s.conf.contains (some p, k) from h'.2 k p]
+
+/-- the two former witnesses: after `disable VtOrderB igno`, `enable igno` reports an error and
+`VtOrderB.igno` stays disabled; after `disable VtOrderB igno; disable igno; enable igno` it stays
+disabled too -/
 theorem enable_global_keeps_plugin_entry :
     let s0 : OwnerSt := ⟨[], []⟩
     let b : Str × List Str := (['V', 't', 'O', 'r', 'd', 'e', 'r', 'B'], [['i', 'g', 'n', 'o']])
-    let s1 := (ownerDisable s0 (some b) ['i', 'g', 'n', 'o']).1
-    isDisabled s1.store ['i', 'g', 'n', 'o'] b.1 = true ∧
-    (ownerEnable s1 none ['i', 'g', 'n', 'o']).2 = false ∧
-    isDisabled (ownerEnable s1 none ['i', 'g', 'n', 'o']).1.store ['i', 'g', 'n', 'o'] b.1 = true := by
+    let igno : Str := ['i', 'g', 'n', 'o']
+    let s1 := (ownerDisable s0 (some b) igno).1
+    let s2 := (ownerDisable s1 none igno).1
+    isDisabled s1.store igno b.1 = true ∧
+    (ownerEnable s1 none igno).2 = false ∧
+    isDisabled (ownerEnable s1 none igno).1.store igno b.1 = true ∧
+    (ownerEnable s2 none igno).2 = true ∧
+    isDisabled (ownerEnable s2 none igno).1.store igno b.1 = true := by
   decide
 
 /-- **A plugin-qualified name reaches that plugin**: with the callbacks `pre ++ P :: post`, `P`
@@ -295,7 +349,7 @@ example : dispatch exDC [['r', 'o', 'n', 'e'], ['x']] = .ambiguous [['r', 'o', '
     rfl (by decide) (by decide)
 
 /-- with `rone` disabled in `Bb`, `getCommand` of `Bb` no longer returns it (`getCommand_enabled`) -/
-example : getCommand [(['r', 'o', 'n', 'e'], some [['b', 'b']])] exB [['r', 'o', 'n', 'e']] = .ok [] := by
+example : getCommand [(['r', 'o', 'n', 'e'], (false, [['b', 'b']]))] exB [['r', 'o', 'n', 'e']] = .ok [] := by
   rw [exB, getCommand_cons]
   simp only [getCommandSubs]
   rw [if_neg (by decide)]
